@@ -428,6 +428,14 @@ def run(ck, prog, ctx):
         msg = ("%s appends unchecked an id %s" % (b.short, ("taken from iterating a group" if iterated else "taken from a group's id vector by index") if ok else ("that is the caller-supplied `%s` (order/uniqueness not checked)" % bad_params[0] if bad_params else "that does not come from iterating a group")))
         ck.ob("TAINT", "append/%s/%d" % (base, i), ok, msg, where=b.where(t.line))
     ck.floor("TAINT", "unchecked append sites", len(sinks), 2, soft=True)
+    # ---- a conversion INTO a group that walks its source in a loop stores what it walks: each such loop contains an insertion
+    # (`for id in s { group.insert(id); }` with the insert gone builds an empty group out of any input)
+    from engines import for_loops as _fl12c
+    for cb12 in sorted(prog.production(), key=lambda z: z.id):
+        if cb12.kind == "AssocFn" and cb12.impl_trait and re.match(r"std::(convert::From|iter::FromIterator|iter::Extend)", cb12.impl_trait) and (cb12.impl_self or {}).get("adt") == G and not cb12.test:
+            for li_, lp_ in enumerate(_fl12c(cb12)):
+                puts_ = [t_ for bi_, t_ in cb12.calls() if bi_ in lp_["blocks"] and t_.callee.method in ("insert", "insert_unchecked", "push", "extend", "extend_from_slice")]
+                ck.ob("TAINT", "conversion-stores/%s/%d" % (cb12.short, li_), bool(puts_), "%s: the loop in line %s %s" % (cb12.short, lp_["line"], "stores the ids it walks" if puts_ else "stores NOTHING of what it walks: the conversion yields an empty group"), where=cb12.where(lp_["line"]))
     # ---- INSERTPOS: an id put into a sorted, duplicate-free vector at its `partition_point` is put there only if it is not there already.
     # `partition_point` says where an id BELONGS, not whether it is present (binary_search's Err arm says both): an unconditional
     # `v.insert(v.partition_point(|x| *x < id), id)` stores an id a second time.
